@@ -1,0 +1,51 @@
+//go:build verif
+
+package process
+
+import (
+	"bufio"
+	"fmt"
+	"os"
+	"strconv"
+
+	"github.com/angelsolaorbaiceta/inkmath/mat"
+	"github.com/angelsolaorbaiceta/inkmath/vec"
+)
+
+// verifObserveSolution is a verification hook (build tag verif): when
+// VERIF_DUMP_SOLUTION=<path> is set, it writes the system of equations handed to the
+// solver and the solver's answer, before the answer is judged, with every number
+// printed in the shortest form that reads back to the same float64.
+func verifObserveSolution(sysMatrix mat.ReadOnlyMatrix, sysVector, solution vec.ReadOnlyVector, maxError float64) {
+	path := os.Getenv("VERIF_DUMP_SOLUTION")
+	if path == "" {
+		return
+	}
+
+	file, err := os.Create(path)
+	if err != nil {
+		panic("verif: can't create " + path)
+	}
+	defer file.Close()
+
+	var (
+		w = bufio.NewWriter(file)
+		g = func(x float64) string { return strconv.FormatFloat(x, 'g', -1, 64) }
+	)
+	defer w.Flush()
+
+	fmt.Fprintf(w, "n %d\nmaxerror %s\n", sysVector.Length(), g(maxError))
+	for i := 0; i < sysMatrix.Rows(); i++ {
+		for j := 0; j < sysMatrix.Cols(); j++ {
+			if v := sysMatrix.Value(i, j); v != 0.0 {
+				fmt.Fprintf(w, "k %d %d %s\n", i, j, g(v))
+			}
+		}
+	}
+	for i := 0; i < sysVector.Length(); i++ {
+		fmt.Fprintf(w, "f %d %s\n", i, g(sysVector.Value(i)))
+	}
+	for i := 0; i < solution.Length(); i++ {
+		fmt.Fprintf(w, "u %d %s\n", i, g(solution.Value(i)))
+	}
+}
